@@ -188,6 +188,8 @@ type World struct {
 	ghostOrder  []string
 	specDefs    map[string]string // spec function name -> SMT definition text (filled lazily)
 	specDeps    map[string][]string
+	specHeap    map[string][]string
+	specHeapBusy map[string]bool
 	errs        []string
 }
 
@@ -198,7 +200,7 @@ func newWorld() *World {
 		lemmas: map[string]*Lemma{}, lemmaPkg: map[string]*PkgInfo{}, contracts: map[string]*FuncContract{},
 		tagNames: map[int]string{}, globals: map[string]string{}, globalSort: map[string]string{},
 		typeIDs: map[string]int{}, compSorts: map[string]string{}, ghostFns: map[string]string{},
-		specDefs: map[string]string{}, specDeps: map[string][]string{},
+		specDefs: map[string]string{}, specDeps: map[string][]string{}, specHeap: map[string][]string{}, specHeapBusy: map[string]bool{},
 	}
 }
 
@@ -465,14 +467,19 @@ const basePrelude = `
 (declare-datatypes ((Addr 0)) (((anil) (loc (oid Int) (path Path)))))
 (declare-datatypes ((Slice 0)) (((mk_slice (sarr Addr) (soff Int) (slen Int) (scap Int)))))
 (declare-datatypes ((Iface 0)) (((inil) (iface (tid Int) (ival Int) (iref Addr)))))
-(define-fun fld ((a Addr) (k Int)) Addr (loc (oid a) (pfld (path a) k)))
-(define-fun idx ((a Addr) (i Int)) Addr (loc (oid a) (pidx (path a) i)))
-(define-fun selem ((s Slice) (i Int)) Addr (idx (sarr s) (+ (soff s) i)))
+(declare-fun fld (Addr Int) Addr)
+(declare-fun idx (Addr Int) Addr)
+(declare-fun selem (Slice Int) Addr)
 (define-fun sgn ((x Int)) Int (ite (< x 0) (- 1) (ite (> x 0) 1 0)))
 (define-fun abs_ ((x Int)) Int (ite (< x 0) (- x) x))
 (define-fun min_ ((x Int) (y Int)) Int (ite (< x y) x y))
 (define-fun max_ ((x Int) (y Int)) Int (ite (< x y) y x))
 (declare-fun itoa (Int) Str)
+; address arithmetic is kept behind function symbols so that quantifier patterns over fld/idx/selem match
+; syntactically; the definitions are instantiated on demand
+(assert (forall ((a Addr) (k Int)) (! (= (fld a k) (loc (oid a) (pfld (path a) k))) :pattern ((fld a k)))))
+(assert (forall ((a Addr) (i Int)) (! (= (idx a i) (loc (oid a) (pidx (path a) i))) :pattern ((idx a i)))))
+(assert (forall ((s Slice) (i Int)) (! (= (selem s i) (loc (oid (sarr s)) (pidx (path (sarr s)) (+ (soff s) i)))) :pattern ((selem s i)))))
 (declare-fun errstr (Iface) Str)
 `
 
